@@ -307,6 +307,34 @@ def check(chk, fb, rid, select, floor=1, skip=()):
             else:
                 chk.refuted(rid, A.key, construct, A.loc(first), "%s::operator= re-populates '%s' element by element without first emptying it or sizing it from the source: entries of the previous value survive the assignment" % (short, fld),
                             witness={"history": "assign a shorter object into a longer one"})
+        # (h) self-assignment: operator= that empties a member and then re-populates it from the same member of its argument reads
+        # what it has just emptied when the argument is the object itself; it needs the self test in front (or the copy first)
+        cfgA = A.cfg
+        selftest = set()
+        for b_ in cfgA.blocks:
+            for s_ in cfgA.succ[b_]:
+                for t_, tr_, nd_ in __import__("bppverif.e1", fromlist=["e1"]).edge_facts(cfgA, b_, s_):
+                    if "this" in t_ and "&" in t_ and (("!=" in t_ and tr_) or ("==" in t_ and tr_ is False)):
+                        selftest.add((b_, s_))
+        for fld in sorted(own):
+            empt = [x for x in A.calls() if "obj" in x and render(A.obj(x)) == fld and x["callee"]["name"] in ("clear", "reset") and not A.args(x)]
+            empt += [x for x in A.calls() if x["callee"]["name"] in ("clear_", "deleteAll_", "reset_") and ("obj" not in x or strip(A.obj(x))["k"] == "CXXThisExpr")
+                     and any(y["callee"]["name"] in ("clear", "erase", "resize") and "obj" in y and render(t_.obj(y)) == fld for t_ in fb.targets(x) if t_.body is not None for y in t_.calls())]
+            if not empt:
+                continue
+            reads = [x for x in A.all_nodes() if x["k"] == "MemberExpr" and x["member"]["name"] == fld and not x["member"].get("this") and kids(x) and render(kids(x)[0]) == sa]
+            later = [x for x in reads if any(cfgA.stmt_block(e_) is not None and cfgA.stmt_block(x) is not None and (cfgA.dominates(cfgA.stmt_block(e_), cfgA.stmt_block(x))) for e_ in empt)]
+            if not later:
+                continue
+            from . import e1 as _e1
+            guarded = all(_e1.guarded_by(cfgA, cfgA.stmt_block(e_), lambda facts: any("this" in t_ and "&" in t_ and (("!=" in t_ and tr_) or ("==" in t_ and tr_ is False)) for t_, tr_, _ in facts))[0] for e_ in empt)
+            con = "self-assignment:" + fld
+            if guarded:
+                chk.proved(rid, A.key, con, A.loc(empt[0]), "'%s' is emptied only after the self-assignment test" % fld)
+            else:
+                chk.refuted(rid, A.key, con, A.loc(empt[0]),
+                            "%s::operator= empties '%s' and then re-populates it from %s.%s with no self-assignment test in front: for 'x = x' the source has just been emptied, so the object loses its %s" % (short, fld, sa, fld, fld),
+                            witness={"history": "x = x on a non-empty object"})
         # (d) writes through stored shared pointers
         for g in (K, A):
             for x in g.all_nodes():
